@@ -571,6 +571,8 @@ def gen_feature(rng, nmax):
             rng.shuffle(cats)
             fd["enum_cats"] = cats
         fd["values"] = [None if (v is None and rng.random() < 0.5) else nv for v, nv in zip(fd["values"], vals)]
+        if fd["ftype"] == "str" and all(v is None for v in fd["values"]):
+            fd["ftype"] = "strnull"        # a python list of None is a Null-typed (numeric path) column, not a string feature
     return fd
 
 
